@@ -2,6 +2,9 @@ import Swat4.Model.USys
 import Swat4.Lemmas.Prog
 import Swat4.Lemmas.Backed
 import Swat4.Lemmas.BackedSys
+import Swat4.Lemmas.BackedStrict
+import Swat4.Lemmas.MarkKept
+import Swat4.Lemmas.BackedPop
 /-!
 # C16 — No crash leaves a server waiting forever for a probe that does not exist
 
@@ -351,6 +354,228 @@ example (z : Fields) (m : Int) (req : ReportReq) (h : req.addr.PortOk) :
   Client.map _ _ (Client.report z m req h)
 example (m iv : Int) : Client (Prog.call Call.now fun now => (UC.refresh m (now + iv)).bind fun r => pure (match r with | .ok _ => "ok" | .error _ => "err")) :=
   Client.now _ (fun _ => Client.map _ _ (Client.refresh _ _))
+
+
+/-! ## expiry taken into account: `BackedStrict`
+
+`Backed` accepts any queued probe of the right address and goal as backing, also one with an `expires` time — which
+`PopMany` drops silently once the time has passed (`AbsState.popManyLoop`: `fresh := batch.filter (!·.expired now)`).
+`Strict.BackedStrict` demands a backing probe with `expires = none`.  Which enqueues carry an expiry: the refresher and
+the reviver pass `before = some deadline` (`usecases_filter_sets`) and set no mark; the three places that set a mark
+enqueue with no expiry (`discover_order`, `submission_order`: `none none`; `retry_order`: `(some ready) none`).  Hence
+every theorem above holds for `BackedStrict` as well: the `*_backed_strict` theorems below (proofs: the same
+development with `InQS` / `learnES`, `Lemmas/BackedStrict.lean`). -/
+
+open Strict in
+/-- `BackedStrict` is the stronger invariant -/
+theorem backedStrict_backed (s : AbsState) (h : BackedStrict s) : Backed s := h.backed
+
+open Strict in
+/-- **the difference is real**: `Strict.W.expiring` — A carries `details_retry`, the only queued details probe for A is
+a refresh probe expiring at 10 — is `Backed` but not `BackedStrict`; a `PopMany` at clock 20 delivers nothing (the probe
+is dropped as expired, counted), the queue is empty and the mark is an orphan that no client holds.  From a
+`BackedStrict` state this cannot happen to a mark whose backing has not been popped (`pop_strict_held`). -/
+theorem expiring_backing_orphaned :
+    Backed Strict.W.expiring ∧ ¬ BackedStrict Strict.W.expiring ∧
+    (Strict.W.expiring.popMany 20 5).2 = ([], 1) ∧ (Strict.W.expiring.popMany 20 5).1.queue = [] ∧
+    ¬ Backed (Strict.W.expiring.popMany 20 5).1 := by
+  refine ⟨?_, ?_, by decide, by decide, ?_⟩
+  · rw [← backedB_iff]; decide
+  · rw [← backedStrictB_iff, Bool.not_eq_true]; decide
+  · rw [← backedB_iff, Bool.not_eq_true]; decide
+
+open Strict in
+/-- **heartbeat-triggered discovery, strict**: `report_backed` for `BackedStrict` — every crash point, every fault
+placement; the discovery probe is enqueued with no expiry before the mark is written -/
+theorem report_backed_strict (cs : List Choice) (zeroInfo : Fields) (maxRetries : Int) (req : ReportReq) (now : Int) (s : AbsState)
+    (hb : BackedStrict s) (hk : Keyed s) : BackedStrict (Prog.runChoices cs (UC.report zeroInfo maxRetries req) s now) :=
+  ((Strict.report_good (fun _ => True) zeroInfo maxRetries req trivial).backed cs s now hb hk).1
+
+open Strict in
+/-- **REST submission, strict**: `addServer_backed` for `BackedStrict` -/
+theorem addServer_backed_strict (cs : List Choice) (zeroInfo : Fields) (maxRetries : Int) (a : Addr) (now : Int) (s : AbsState)
+    (hb : BackedStrict s) (hk : Keyed s) : BackedStrict (Prog.runChoices cs (UC.addServer zeroInfo maxRetries a) s now) :=
+  ((Strict.addServer_good (fun _ => True) zeroInfo maxRetries a trivial).backed cs s now hb hk).1
+
+open Strict in
+/-- **the prober, strict**: `probe_backed` for `BackedStrict` — whatever the probe the prober holds (also a refresh or
+revival probe that carried an expiry), whatever the outcome, crash point and fault placement, no *other* mark loses its
+non-expiring backing; the retry path re-queues with no expiry (`retry_order`) before marking -/
+theorem probe_backed_strict (cs : List Choice) (prb : Probe) (outcome : Option ProbeResult) (now : Int) (s : AbsState)
+    (hb : BackedExceptS s prb.addr prb.goal) (hk : Keyed s)
+    (hcanon : ∀ (row : SRow), s.servers[prb.addr.key]? = some row → row.svr.addr = prb.addr) :
+    BackedExceptS (Prog.runChoices cs (UC.probe prb outcome) s now) prb.addr prb.goal :=
+  ((Strict.probe_good (fun _ => True) prb outcome (E := fun _ _ => False) (R := fun x => x = prb.addr) rfl).backedExcept
+    cs s now hb hk hcanon).1
+
+open Strict in
+/-- **the holder ran to completion without a fault, strict**: `probe_complete_backed` for `BackedStrict` -/
+theorem probe_complete_backed_strict (prb : Probe) (outcome : Option ProbeResult) (now : Int) (s : AbsState)
+    (hb : BackedExceptS s prb.addr prb.goal) (hk : Keyed s)
+    (hcanon : ∀ (row : SRow), s.servers[prb.addr.key]? = some row → row.svr.addr = prb.addr) :
+    BackedStrict ((UC.probe prb outcome).run s now).1 ∧
+    ∀ n, 4 ≤ n → BackedStrict (Prog.runChoices (List.replicate n Choice.ok) (UC.probe prb outcome) s now) := by
+  have h := Strict.probe_run_backed prb outcome s now hb hk hcanon
+  refine ⟨h, fun n hn => ?_⟩
+  rw [runChoices_all_ok _ _ _ _ (Nat.le_trans (probe_runSteps_le prb outcome s now) hn)]
+  exact h
+
+open Strict in
+/-- **refresh and revival, strict**: they only enqueue (their probes do expire, and back nothing: they set no mark) -/
+theorem refresh_revive_backed_strict (cs : List Choice) (now : Int) (s : AbsState) (hb : BackedStrict s) (hk : Keyed s) :
+    (∀ (maxRetries deadline : Int), BackedStrict (Prog.runChoices cs (UC.refresh maxRetries deadline) s now)) ∧
+    (∀ (maxRetries minScope maxScope minCountdown maxCountdown deadline : Int) (draws : Nat → Int),
+      BackedStrict (Prog.runChoices cs (UC.revive maxRetries minScope maxScope minCountdown maxCountdown deadline draws) s now)) :=
+  ⟨fun maxRetries deadline => ((Strict.refresh_good (fun _ => True) maxRetries deadline).backed cs s now hb hk).1,
+   fun maxRetries minScope maxScope minCountdown maxCountdown deadline draws =>
+    ((Strict.revive_good (fun _ => True) maxRetries minScope maxScope minCountdown maxCountdown deadline draws).backed cs s now hb hk).1⟩
+
+open Strict in
+/-- **keepalive and removal, strict** -/
+theorem renew_remove_backed_strict (cs : List Choice) (now : Int) (s : AbsState) (hb : BackedStrict s) (hk : Keyed s) :
+    (∀ (instanceId srcIp : Nat), BackedStrict (Prog.runChoices cs (UC.renew instanceId srcIp) s now)) ∧
+    (∀ (instanceId : Nat) (a : Addr), BackedStrict (Prog.runChoices cs (UC.remove instanceId a) s now)) :=
+  ⟨fun instanceId srcIp => ((Strict.renew_good (fun _ => True) instanceId srcIp).backed cs s now hb hk).1,
+   fun instanceId a => ((Strict.remove_good (fun _ => True) instanceId a).backed cs s now hb hk).1⟩
+
+open Strict in
+/-- **C16 for every system without a popper, strict**: `C16_interleaved` for `BackedStrict`, over the same clients
+(now including the two-step cleaner `Client.cleanServers2`) and the same events -/
+theorem C16_interleaved_strict (u : USys) (es : List UEv) (hb : BackedStrict u.abs) (hk : KeyedOk u.abs)
+    (hc : ∀ c ∈ u.clients, Client c.prog) :
+    BackedStrict (u.run es).abs ∧ KeyedOk (u.run es).abs ∧ ∀ q ∈ u.abs.queue, q ∈ (u.run es).abs.queue :=
+  Strict.sys_backed u es hb hk hc
+
+/-- non-vacuity: the empty store is `BackedStrict`; the store after a fault-free heartbeat of a new server is
+`BackedStrict` with a mark in it (the `port_retry` mark of A, backed by the non-expiring discovery probe) -/
+example : Strict.BackedStrict {} := fun k row g h => by simp at h
+example : Strict.BackedStrict ((UC.report [] 2 ⟨W.A, 10481, 7, some []⟩).run {} 5).1 ∧
+    ((UC.report [] 2 ⟨W.A, 10481, 7, some []⟩).run {} 5).1.queue.map (·.expires) = [none] ∧
+    (((UC.report [] 2 ⟨W.A, 10481, 7, some []⟩).run {} 5).1.servers.toList.map fun kv => Status.has kv.2.svr.status Status.portRetry) = [true] := by
+  refine ⟨?_, by decide, by decide⟩
+  rw [← Strict.backedStrictB_iff]; decide
+/-- the two-step cleaner as the system model runs it is a `Client` -/
+example (r : Int) : Client ((UC.cleanServers2 r).bind fun _ => pure "ok") := Client.map _ _ (Client.cleanServers2 r)
+
+
+/-! ## a retry mark is cleared only by a probe outcome
+
+`Marks.MarksKept rm s s'`: every row of `s'` carries every retry mark that the row of `s` under the same key carried,
+and (`rm = false`) every key that had a row still has one.  One theorem per use case, at every crash point and under
+every fault placement (`Prog.runChoices`).  What is left are the prober's `HandleSuccess` / `HandleFailure`
+(`outcomes_clear_mark`): the only writes that clear a retry bit of a row that stays. -/
+
+open Marks in
+/-- **heartbeat** (`reportserver.Execute`, including its port discovery): never clears a retry mark, never removes a row -/
+theorem mark_preserved_report (cs : List Choice) (zeroInfo : Fields) (maxRetries : Int) (req : ReportReq) (now : Int) (s : AbsState)
+    (hk : Keyed s) : MarksKept false s (Prog.runChoices cs (UC.report zeroInfo maxRetries req) s now) :=
+  (report_pres zeroInfo maxRetries req).marksKept hk cs now
+
+open Marks in
+/-- **keepalive** (`renewserver.Execute`) -/
+theorem mark_preserved_renew (cs : List Choice) (instanceId srcIp : Nat) (now : Int) (s : AbsState) (hk : Keyed s) :
+    MarksKept false s (Prog.runChoices cs (UC.renew instanceId srcIp) s now) :=
+  (renew_pres instanceId srcIp).marksKept hk cs now
+
+open Marks in
+/-- **removal** (`removeserver.Execute`): the row is removed whole or left as it is — no row that stays loses a mark -/
+theorem mark_preserved_remove (cs : List Choice) (instanceId : Nat) (a : Addr) (now : Int) (s : AbsState) (hk : Keyed s) :
+    MarksKept true s (Prog.runChoices cs (UC.remove instanceId a) s now) :=
+  (remove_pres instanceId a).marksKept hk cs now
+
+open Marks in
+/-- **REST submission / discovery** (`addserver.Execute`): sets `port_retry` or nothing -/
+theorem mark_preserved_discover (cs : List Choice) (zeroInfo : Fields) (maxRetries : Int) (a : Addr) (now : Int) (s : AbsState)
+    (hk : Keyed s) : MarksKept false s (Prog.runChoices cs (UC.addServer zeroInfo maxRetries a) s now) :=
+  (addServer_pres zeroInfo maxRetries a).marksKept hk cs now
+
+open Marks in
+/-- **refresh** (`refreshservers.Execute`): writes no row -/
+theorem mark_preserved_refresh (cs : List Choice) (maxRetries deadline : Int) (now : Int) (s : AbsState) (hk : Keyed s) :
+    MarksKept false s (Prog.runChoices cs (UC.refresh maxRetries deadline) s now) :=
+  (refresh_pres maxRetries deadline).marksKept hk cs now
+
+open Marks in
+/-- **revival** (`reviveservers.Execute`): writes no row -/
+theorem mark_preserved_revive (cs : List Choice) (maxRetries minScope maxScope minCountdown maxCountdown deadline : Int)
+    (draws : Nat → Int) (now : Int) (s : AbsState) (hk : Keyed s) :
+    MarksKept false s (Prog.runChoices cs (UC.revive maxRetries minScope maxScope minCountdown maxCountdown deadline draws) s now) :=
+  (revive_pres maxRetries minScope maxScope minCountdown maxCountdown deadline draws).marksKept hk cs now
+
+open Marks in
+/-- **cleaner** (`ServerCleaner.Clean`, atomic and two-step): removes rows whole; no row that stays loses a mark -/
+theorem mark_preserved_clean (cs : List Choice) (retention : Int) (now : Int) (s : AbsState) (hk : Keyed s) :
+    MarksKept true s (Prog.runChoices cs (UC.cleanServers retention) s now) ∧
+    MarksKept true s (Prog.runChoices cs (UC.cleanServers2 retention) s now) :=
+  ⟨(cleanServers_pres retention).marksKept hk cs now, (cleanServers2_pres retention).marksKept hk cs now⟩
+
+open Marks in
+/-- **the prober's retry with budget left** (`probeserver.retry`, entered with the stored record) keeps every mark too:
+only a success or the final failure clears one -/
+theorem mark_preserved_probeRetry (cs : List Choice) (prb : Probe) (svr : Server) (t : Int) (now : Int) (s : AbsState)
+    (hk : Keyed s) (hrow : s.servers[svr.addr.key]? = some ⟨svr, t⟩) (hb : prb.retries < prb.maxRetries) :
+    MarksKept false s (Prog.runChoices cs (UC.probeRetry prb svr) s now) :=
+  (probeRetry_budget_pres prb svr (fun row0 h0 g hm => by rw [hrow] at h0; cases h0; exact hm) hb).marksKept hk cs now
+
+/-- non-vacuity: `W.staleState` (A marked `port_retry`, keyed) — a heartbeat of A run to completion keeps the mark, and
+the prober's success clears it -/
+example : Marks.MarksKept false W.staleState ((UC.report [] 2 ⟨W.A, 10481, 7, some []⟩).run W.staleState 5).1 ∧
+    ((((UC.report [] 2 ⟨W.A, 10481, 7, some []⟩).run W.staleState 5).1.servers.toList.map
+      fun kv => Status.has kv.2.svr.status Status.portRetry) = [true]) ∧
+    ((((UC.probe W.probe (some ⟨⟨[], [], []⟩, 10481⟩)).run W.staleState 5).1.servers.toList.map
+      fun kv => Status.has kv.2.svr.status Status.portRetry) = [false]) := by
+  refine ⟨?_, by decide, by decide⟩
+  have hk : Keyed W.staleState := W.state_keyed
+  have := mark_preserved_report (List.replicate ((UC.report [] 2 ⟨W.A, 10481, 7, some []⟩).runSteps W.staleState 5) .ok)
+    [] 2 ⟨W.A, 10481, 7, some []⟩ 5 W.staleState hk
+  rwa [runChoices_all_ok _ _ _ _ (Nat.le_refl _)] at this
+
+
+/-! ## the popper: what `PopMany` does to the backing, and a whole fault-free batch -/
+
+open Strict in
+/-- **a pop never drops the backing of a mark silently** (from a `BackedStrict` store).  After `PopMany(n)` at any
+clock, every retry mark is backed by a non-expiring probe still queued or by one of the probes the call handed to the
+prober (`Strict.Held`): the only marks without a queued probe are those whose probe somebody now holds — the situation
+`probe_backed_strict` starts from.  `hinj`: queue ids are distinct (they are fresh UUIDs; `AbsState.enqueue` uses a
+counter).  With plain `Backed` this fails: `expiring_backing_orphaned`. -/
+theorem pop_strict_held (s : AbsState) (now : Int) (n : Int) (hb : BackedStrict s) (hinj : IdInj s.queue) :
+    BackedExS (Held (s.popMany now n).2.1) (s.popMany now n).1 ∧ (s.popMany now n).1.servers = s.servers ∧
+    (∀ p ∈ (s.popMany now n).2.1, ∃ x ∈ s.queue, x.probe = p) :=
+  ⟨popMany_strict s now n hb hinj, Strict.popMany_servers s now n, (popMany_covers s now n hinj).2.2⟩
+
+open Strict in
+/-- **a fault-free prober batch restores the invariant.**  `Strict.proberBatch n oc order` mirrors the driver's `pop`
+client (`Drv/UCRun.lean`: `PopMany(n)`, `sortBatch`, `probeAll`): pop, then `probeserver.Execute` for every popped probe
+in turn, each to completion.  From a `BackedStrict` store (rows well keyed with valid addresses, distinct queue ids,
+valid probe addresses), for every `n`, every clock, every outcome per probe and every order of the batch, the store
+after the batch is `BackedStrict` (hence `Backed`) and well keyed.  So the holder-loss finding
+(`C16_holder_counterexample`) needs a holder that stops early or takes an error branch — the batch itself, however
+large and in whatever order, repairs every mark it unbacked. -/
+theorem pop_complete_backed (n : Int) (oc : Probe → Option ProbeResult) (order : List Probe → List Probe)
+    (horder : ∀ ps p, p ∈ order ps ↔ p ∈ ps) (s : AbsState) (now : Int)
+    (hb : BackedStrict s) (hk : KeyedOk s) (hinj : IdInj s.queue) (hq : ∀ q ∈ s.queue, q.probe.addr.PortOk) :
+    BackedStrict ((proberBatch n oc order).run s now).1 ∧ Backed ((proberBatch n oc order).run s now).1 ∧
+    KeyedOk ((proberBatch n oc order).run s now).1 :=
+  have h := Strict.pop_complete_backed n oc order horder s now hb hk hinj hq
+  ⟨h.1, h.1.backed, h.2⟩
+
+/-- non-vacuity: `W.staleState` (A marked `port_retry`, its non-expiring probe queued) satisfies the hypotheses; the
+batch pops the probe and — the probe failing with budget left — re-queues it with one more retry -/
+example : Strict.BackedStrict W.staleState ∧ KeyedOk W.staleState ∧ Strict.IdInj W.staleState.queue ∧
+    (∀ q ∈ W.staleState.queue, q.probe.addr.PortOk) ∧
+    (W.staleState.popMany 1000 5).2.1 = [W.probe] ∧
+    ((Strict.proberBatch 5 (fun _ => none) id).run W.staleState 1000).1.queue.map (fun q => (q.probe.retries, q.expires)) = [(1, none)] := by
+  refine ⟨?_, ?_, ?_, ?_, by decide, by decide⟩
+  · rw [← Strict.backedStrictB_iff]; decide
+  · intro k row h
+    obtain ⟨rfl, rfl⟩ := W.state_row k row h
+    exact ⟨rfl, by unfold Addr.PortOk; decide⟩
+  · exact Strict.idInj_of_nodup (by decide)
+  · intro q hq
+    have : q = ⟨0, W.probe, 0, none⟩ := by simpa [W.staleState] using hq
+    subst this
+    unfold Addr.PortOk; decide
 
 
 /-! ## the hypotheses are needed; a third way to lose the backing -/
